@@ -153,11 +153,14 @@ func repoRoot() string {
 }
 
 // encryptAssetOnDisk turns the video and audio tracks of a generated asset into pre-encrypted ones (cenc).
-func encryptAssetOnDisk(dir string) error {
+func encryptAssetOnDisk(dir string, tracks ...string) error {
 	key := []byte("0123456789abcdef")
 	kid, _ := mp4.NewUUIDFromHex("00112233445566778899aabbccddeeff")
 	iv := []byte("12345678")
-	for _, tr := range []string{"V300", "A48"} {
+	if len(tracks) == 0 {
+		tracks = []string{"V300", "A48"}
+	}
+	for _, tr := range tracks {
 		ib, err := os.ReadFile(filepath.Join(dir, tr, "init.mp4"))
 		if err != nil {
 			return err
@@ -217,6 +220,9 @@ func getDrmServer() *app.Server {
 		// a pre-encrypted copy of a real asset (the generated assets carry synthetic payloads that cannot be sub-sample encrypted)
 		must(copyTree(filepath.Join(bundledRoot(), "testpic_2s"), filepath.Join(drmRoot, "pre_enc")))
 		must(encryptAssetOnDisk(filepath.Join(drmRoot, "pre_enc")))
+		// ... and one whose audio track only is pre-encrypted (the reference track, video, is clear)
+		must(copyTree(filepath.Join(bundledRoot(), "testpic_2s"), filepath.Join(drmRoot, "pre_enc_audio")))
+		must(encryptAssetOnDisk(filepath.Join(drmRoot, "pre_enc_audio"), "A48"))
 		var err error
 		drmCfgPath = buildDrmConfig()
 		drmCfg, err = drm.ReadDrmConfig(drmCfgPath)
